@@ -164,7 +164,7 @@ def brentsroot(f, bounds, tol=None, verbose=False, return_interval=False):
             a, b = b, a
             fa, fb = fb, fa
         conv = (fb == 0 or fs == 0 or D.ar_numpy.abs(b - a) <= tol * D.ar_numpy.maximum(1.0, D.ar_numpy.abs(b)))
-        if numiter >= 64:
+        if numiter >= 128:
             break
     if verbose:
         with numpy.printoptions(precision=17, linewidth=200):
@@ -310,7 +310,7 @@ def brentsrootvec(f, bounds, tol=None, verbose=False, return_interval=False, acc
 
         width_conv = D.ar_numpy.abs(b - a) <= tol * D.ar_numpy.maximum(1.0, D.ar_numpy.abs(b))
         conv = D.ar_numpy.logical_not(D.ar_numpy.logical_or(D.ar_numpy.logical_or(fb == 0, fs == 0), width_conv))
-        conv = conv & (numiter <= 64)
+        conv = conv & (numiter <= 128)
         not_conv = D.ar_numpy.logical_not(conv)
         # a root is certified by a vanishing residual or by a sign change over a bracket that has shrunk to the tolerance
         true_conv = (D.ar_numpy.abs(fb) <= tol) | ((D.ar_numpy.sign(fa) * D.ar_numpy.sign(fb) <= 0) & width_conv)
